@@ -377,7 +377,12 @@ def _judge_update(ctx, flt, rtdc_ds, force):
     bad = [m for m, (ok, _d) in results.items() if not ok]
     variant_fit = None
     if bad:
-        variant_fit = _explain(model, cfg, data, n, observed, spec)
+        pf_masks = getattr(flt, "_box_filters", None)
+        if isinstance(pf_masks, dict):
+            pf_masks = {f: np.array(m, copy=True) for f, m in pf_masks.items()}
+        else:
+            pf_masks = None
+        variant_fit = _explain(model, cfg, data, n, observed, spec, pf_masks)
     for mon, (ok, detail) in results.items():
         finding = None
         if not ok and variant_fit is not None and mon in variant_fit["monitors"]:
@@ -395,7 +400,7 @@ def _judge_update(ctx, flt, rtdc_ds, force):
                            f"the current settings: {detail}"))
 
 
-def _explain(model, cfg, data, n, observed, spec):
+def _explain(model, cfg, data, n, observed, spec, per_feature=None):
     """Try the defect models; returns {"finding", "monitors", "variant"} for the first one that
     predicts a deviation from the spec AND reproduces the observed box array exactly (and,
     through it, the observed `all`)."""
@@ -414,6 +419,21 @@ def _explain(model, cfg, data, n, observed, spec):
             continue                      # this model predicts no deviation at all
         if not np.array_equal(pbox, observed["box"]):
             continue
+        if per_feature is not None:
+            # specificity: the model must also reproduce every per-feature mask the Filter
+            # holds (internal state, read for tagging only - never by the oracle)
+            ones = np.ones(n, dtype=bool)
+            same = True
+            for f in set(per_feature) | set(model.box[native] if stale else ()):
+                if f not in data:
+                    continue
+                pm = (model.box[native].get(f, ones) if stale
+                      else model._mask(data[f], cfg, f, native))
+                if not np.array_equal(pm, per_feature.get(f, ones)):
+                    same = False
+                    break
+            if not same:
+                continue
         return _fit([stale, native], finding, pbox, observed, spec)
     return None
 
